@@ -487,13 +487,17 @@ func (r *Runner) check(re *refErr) {
 
 func (r *Runner) exec(cmd string, t *toks) string {
 	re := &refErr{}
-	if cmd == "world" {
+	if cmd == "world" || cmd == "world+" {
 		a, b, c := t.nat(), t.nat(), t.nat()
 		t.end()
 		if c != ecs.MaskTotalBits {
 			panic(badOp{})
 		}
+		dumps := r.dumps
 		*r = *NewRunnerKeep(r)
+		if cmd == "world+" {
+			r.dumps = dumps // dumps are plain data and outlive the world they were taken from
+		}
 		w := ecs.NewWorld(ecs.NewConfig().WithCapacityIncrement(a).WithRelationCapacityIncrement(b))
 		r.w = &w
 		r.bits = c
@@ -514,7 +518,9 @@ func (r *Runner) exec(cmd string, t *toks) string {
 		}
 		id := ecs.TypeID(w, tp)
 		r.comps = append(r.comps, &compKind{kind: kind, tp: tp, id: id, isRel: isRel, size: tp.Size(), isPtr: isPtr})
-		return r.ok(strconv.Itoa(int(ecs.VerifIDValue(id))))
+		info, ok := ecs.ComponentInfo(w, id)
+		rid, _ := ecs.ComponentInfo(w, ecs.TypeID(w, tp)) // same type, same id again
+		return r.ok(fmt.Sprintf("%d rel=%s known=%s stable=%s", ecs.VerifIDValue(id), b01(info.IsRelation), b01(ok && info.Type == tp), b01(rid.ID == id)))
 	case "resreg":
 		t.end()
 		tp := reflect.ArrayOf(len(r.resIDs)+1, byteType)
